@@ -149,6 +149,7 @@ def _run_case(args):
             keep_smt=1,
             allowed_exceptions=allowed,
             validate_paths=case.get("validate_paths", 2),
+            path_timeout=b.get("path_timeout", 120.0),
         )
         failed = [o.as_dict() for o in res.obligations if o.verdict != "unsat"]
         sample = None
